@@ -95,6 +95,17 @@ def showRes {α : Type} (f : α → String) : Res α → String
   | .ok a => f a
   | .err e => "err " ++ e.name
 
+/-- the generic loader on the current collection -/
+def stepLoadGeneric (st : St) : St × String :=
+  match st.coll with
+  | .zip z => (st, showRes (fun l => lst (l.map (showSig true))) (zipLoad z))
+  | .sbt z => (st, showRes (fun l => bag (l.map (showSig true))) (sbtLoad z))
+  | .dir d => (st, showRes (fun l => bag (l.map (showSig true))) (multiIndexLoad (dirLoad d)))
+  | .sigfile l => (st, showRes (fun l => lst (l.map (showSig true))) (multiIndexLoad l))
+  | .sql db => (st, lst ((sqlLoad db).map (showSig true)))
+  | .lca db => (st, bag ((db.signatures Sm.Gen.lcaYieldsEmpty).map (showSig false)))
+  | _ => (st, "ok -")
+
 def step (st : St) (line : String) : St × String :=
   let bad := (st, "bad-op")
   match words line with
@@ -172,28 +183,25 @@ def step (st : St) (line : String) : St × String :=
     match st.coll with
     | .zip z => (st, bag ((zipRebuildManifest z).map (showRow true)))
     | _ => (st, "ok -")
-  | ["load", "standalone-sql"] =>
-    -- a `sig collect -F sql` style manifest: every row points at the collection
-    let atColl (rows : List Row) : List Row := sqlManifestKeep (rows.map fun r => { r with loc := some (.other 0) })
-    match st.coll with
-    | .zip z => match zipManifest z with
-      | some rows => (st, showRes (fun l => lst ((standaloneLoad (atColl rows) l).map (showSig true))) (zipLoad z))
-      | none => (st, "ok -")
-    | .dir d => (st, showRes (fun l => bag ((standaloneLoad (atColl (dirManifest d)) l).map (showSig true))) (multiIndexLoad (dirLoad d)))
-    | .sigfile l => (st, showRes (fun l => lst ((standaloneLoad (atColl (l.map fun s => mkRow s none)) l).map (showSig true))) (multiIndexLoad l))
-    | .sql db => (st, lst ((standaloneLoad (atColl (sqlManifest db)) (sqlLoad db)).map (showSig true)))
-    | _ => (st, "ok -")
-  | ["load", _how] =>
-    -- every way of reloading goes through the same collection object (the standalone manifest and the
-    -- path list defer to the generic loader on the collection's path)
-    match st.coll with
-    | .zip z => (st, showRes (fun l => lst (l.map (showSig true))) (zipLoad z))
-    | .sbt z => (st, showRes (fun l => bag (l.map (showSig true))) (sbtLoad z))
-    | .dir d => (st, showRes (fun l => bag (l.map (showSig true))) (multiIndexLoad (dirLoad d)))
-    | .sigfile l => (st, showRes (fun l => lst (l.map (showSig true))) (multiIndexLoad l))
-    | .sql db => (st, lst ((sqlLoad db).map (showSig true)))
-    | .lca db => (st, bag ((db.signatures Sm.Gen.lcaYieldsEmpty).map (showSig false)))
-    | _ => (st, "ok -")
+  | ["load", how] =>
+    let keep (rows : List Row) : List Row := if how = "standalone-sql" then sqlManifestKeep rows else rows
+    if how = "standalone" || how = "standalone-sql" then
+      -- a `sig collect` style manifest (CSV / SQLite format): every row points at the collection
+      match st.coll with
+      | .zip z => match zipManifest z with
+        | some rows => (st, showRes (fun l => lst (l.map (showSig true))) (standaloneLoadFs [(0, z)] (keep (relocate 0 rows))))
+        | none => (st, "ok -")
+      | .dir d => (st, showRes (fun l => bag ((standaloneLoad (keep (relocate 0 (dirManifest d))) l).map (showSig true))) (multiIndexLoad (dirLoad d)))
+      | .sigfile l => (st, showRes (fun l => lst ((standaloneLoad (keep (relocate 0 (l.map fun s => mkRow s none))) l).map (showSig true))) (multiIndexLoad l))
+      | .sql db => (st, lst ((standaloneLoad (keep (relocate 0 (sqlManifest db))) (sqlLoad db)).map (showSig true)))
+      | .sbt z => (st, showRes (fun l => bag (l.map (showSig true))) (sbtLoad z))
+      | .lca db => (st, bag ((db.signatures Sm.Gen.lcaYieldsEmpty).map (showSig false)))
+      | _ => (st, "ok -")
+    else if how = "pathlist" then
+      match st.coll with
+      | .zip z => (st, showRes (fun l => lst (l.map (showSig true))) (pathlistLoadFs [(0, z)] [0]))
+      | _ => stepLoadGeneric st
+    else stepLoadGeneric st
   | ["len"] =>
     match st.coll with
     | .zip z => (st, match zipManifest z with
